@@ -102,7 +102,9 @@ def check_inv(o, fail, where=""):
         if n.shape != (nd,) or not np.issubdtype(n.dtype, np.integer) or not (n > 0).all():
             fail(f"{where}: cell counts {m.n!r} are not positive integers, one per direction")
             return
-        if not np.allclose(np.asarray(m.cell) * n, r.edges, rtol=1e-12, atol=0):
+        # relative 1e-12, plus the granularity of subnormal numbers (a cell size below 2.2e-308 is quantised in steps of
+        # 4.9e-324: the property's length scales end at 1e-12, the extreme stream goes down to 1e-320)
+        if not np.all(np.abs(np.asarray(m.cell) * n - r.edges) <= 1e-12 * np.abs(r.edges) + 5e-324 * (n + 1)):
             fail(f"{where}: cell*n != edges")
         check_subinv(m, fail, where)
     if isinstance(o, df.Field):
